@@ -138,7 +138,8 @@ type RtmpMsg struct {
 }
 
 func (msg RtmpMsg) IsAvcKeySeqHeader() bool {
-	return msg.Header.MsgTypeId == RtmpTypeIdVideo && msg.Payload[0] == RtmpAvcKeyFrame && msg.Payload[1] == RtmpAvcPacketTypeSeqHeader
+	// a video message shorter than its two header bytes is not a sequence header
+	return msg.Header.MsgTypeId == RtmpTypeIdVideo && len(msg.Payload) >= 2 && msg.Payload[0] == RtmpAvcKeyFrame && msg.Payload[1] == RtmpAvcPacketTypeSeqHeader
 }
 
 func (msg RtmpMsg) IsHevcKeySeqHeader() bool {
